@@ -136,7 +136,9 @@ def call_abstract(eng, st, f, pos, kw):
         return res
     if f.a == "loopless_fva_iter":
         outs = eng.apply_contract(st, REG.get(KEY), list(pos), kw)
-        return [(k, _log(s, "loopless_fva_iter", tuple(pos), CL._kws(kw), st, s, v) if k == "ok" else s, v) for k, s, v in outs]
+        # the callee's own trace is not visible to the caller: the call is appended to the CALLER's trace
+        return [(k, s.setghost("trace", _tr(st) + (("loopless_fva_iter", tuple(pos), CL._kws(kw), st, s, v),)) if k == "ok"
+                 else s.setghost("trace", _tr(st)), v) for k, s, v in outs]
     return None
 
 
@@ -178,7 +180,15 @@ def call_method_hook(eng, st, recv, name, pos, kw):
         return res
     if isinstance(recv, VObj) and recv.cls == "Model" and name == "slim_optimize":
         outs = eng.apply_contract(st, REG.get("Model.slim_optimize"), [recv] + list(pos), kw)
-        return [(k, _log(s.setghost("solved_with", C5.objc(s)), "solve", tuple(pos), CL._kws(kw), st, s) if k == "ok" else s, v) for k, s, v in outs]
+        res = []
+        for k, s, v in outs:
+            if k == "ok":
+                if getattr(eng.cur_contract, "key", None) == STEP_KEY:
+                    # TRUSTED (optlang / GLPK): objective.value is a finite float - c.x of the stored primal values - for any status
+                    s = s.assume(C4.value_of(s, recv).k == 0)
+                s = _log(s.setghost("solved_with", C5.objc(s)), "solve", tuple(pos), CL._kws(kw), st, s)
+            res.append((k, s, v))
+        return res
     if isinstance(recv, VObj) and recv.cls == "Model" and name == "optimize":
         a = dict(kw)
         if len(pos) < 2:
@@ -223,6 +233,13 @@ def _same(a, b):
     return a == b
 
 
+def _dir(st, m):
+    """the objective direction as an identifier term (a literal written by hand is a VConc)"""
+    from pyvc.values import id_lit
+    d = C4.direction_of(st, m)
+    return id_lit(d.py) if isinstance(d, VConc) else d.t
+
+
 def _frame(E, st):
     """stack, all bounds, all objective coefficients and the direction as at entry"""
     m = E["model"]
@@ -230,13 +247,13 @@ def _frame(E, st):
     for f in BFIELDS:
         cs.append(_same(E.eng.heap_arr(st, f), E.eng.heap_arr(E.s0, f)))
     cs.append(C5.objc(st) == C5.objc(E.s0))
-    cs.append(C4.direction_of(st, m).t == C4.direction_of(E.s0, m).t)
+    cs.append(_dir(st, m) == _dir(E.s0, m))
     return z3.And(*cs)
 
 
 def _problem_as_at_entry(E, st):
     m = E["model"]
-    return z3.And(C5.objc(st) == C5.objc(E.s0), C4.direction_of(st, m).t == C4.direction_of(E.s0, m).t)
+    return z3.And(C5.objc(st) == C5.objc(E.s0), _dir(st, m) == _dir(E.s0, m))
 
 
 def _absr(x):
@@ -327,6 +344,9 @@ def _post(E):
     r = E["reaction"].t
     n, _ = L(E.s0, _dl(E.s0, m))
     cs = [_frame(E, E.s1)]
+    if getattr(E, "role", "goal") != "goal":
+        # at a call site the trace is not visible: callers get the FRAME (a conjunct of every proved exit) and a finite-or-not number
+        return cs[0]
     if not names or names[0] != "get_solution":
         return _no("site 1: " + str(names))
     _, gpos, st_g0, sol0 = tr[0]
@@ -428,8 +448,7 @@ def _pre(E):
     t = E["reaction"].t
     return z3.And(WF(E, E.s0, dl), FA([j], z3.Implies(z3.And(0 <= j, j < n), z3.And(*per)), patterns=[e[j]]),
                   z3.Select(dom, idA[t]), e[val[idA[t]]] == t,                                  # the target is a reaction of the model
-                  C4._is_status(C4.status_of(E.s0, m), "optimal"), C4.value_of(E.s0, m).k == 0,  # "has been optimized"
-                  C4.value_of(E.s0, m).v != z3.Real("NaN_const"))
+                  C4.value_of(E.s0, m).k == 0, C4.value_of(E.s0, m).v != z3.Real("NaN_const"))   # `current` is a finite number
 
 
 def _mod(E):
@@ -483,3 +502,145 @@ REG.add(Contract(ML, "loopless_fva_iter", "C17", [("model", _model_t()), ("react
                  loops={0: LoopSpec(_inv, _loop_mod)}, props=["C17", "C05", "C13", "C14"],
                  note="zero_cutoff None; solver status optimal with a finite value at entry (docstring assumption 2); bounds valid, "
                       "reactions attached, target in the model; the rollback at `with model` exit is the trusted C03 / C13 step"))
+
+
+# ================================================================ (4) the call site: _fva_step with the global _loopless = True
+MV = C5.MV
+
+
+def _as_iter_env(E, st0=None):
+    return Env({"model": E["_model"]}, st0 or E.s0, eng=E.eng)
+
+
+def _step_pre(E):
+    m = E["_model"]
+    dl = _dl(E.s0, m)
+    n, e = L(E.s0, dl)
+    j = qv("qj")
+    r = e[j]
+    lb, ub = C1.lbub(E, E.s0, r)
+    per = [xr_le(lb, ub), lb.k != 1, ub.k != -1, C1.vars_distinct(r), C1.model_of(E, E.s0, r) != NULL]
+    return z3.And(C5._pre(E), FA([j], z3.Implies(z3.And(0 <= j, j < n), z3.And(*per)), patterns=[e[j]]))
+
+
+def _step_frame(E, st):
+    """stack, bounds and direction as at entry (the callee's frame); the coefficients are stated separately"""
+    Ei = _as_iter_env(E)
+    cs = [CL._stack_as_at_entry(Ei, st)]
+    for f in BFIELDS:
+        cs.append(_same(E.eng.heap_arr(st, f), E.eng.heap_arr(E.s0, f)))
+    cs.append(_dir(st, E["_model"]) == _dir(E.s0, E["_model"]))
+    return z3.And(*cs)
+
+
+def _step_post(E):
+    m = E["_model"]
+    r = C5._rxn(E)
+    o0 = C5.objc(E.s0)
+    want = z3.Store(z3.Store(o0, C1.fwd(r), z3.RealVal(1)), C1.rev(r), z3.RealVal(-1))
+    res = E.res
+    tr = _tr(E.s1)
+    if not (isinstance(res, VTuple) and len(res.items) == 2 and isinstance(res.items[1], VReal)):
+        return _no("step: result shape")
+    if _names(tr) != ["solve", "loopless_fva_iter"]:
+        return _no("step: " + str(_names(tr)))
+    _, spos, skws, st_solve, st_solved = tr[0]
+    _, ipos, ikws, st_call, st_after, val = tr[1]
+    # ONE call loopless_fva_iter(_model, rxn): exactly these arguments, made in the state the +1 / -1 solve left (status checked)
+    if not (not spos and not skws and len(ipos) == 2 and not ikws and isinstance(ipos[0], VObj) and ipos[0].oid == m.oid
+            and isinstance(ipos[1], VRef) and isinstance(val, VReal)
+            and C4.status_of(st_call, m) is C4.status_of(st_solved, m) and C4.value_of(st_call, m) is C4.value_of(st_solved, m)
+            and C5.objc(st_call).eq(C5.objc(st_solve)) and CL._heap_as_at_entry(_as_iter_env(E), st_call, BFIELDS)):
+        return _no("step: call shape")
+    x, y = qv("ox", Ref), qv("oy", Ref)
+    return z3.And(unwrap(res.items[0], "id") == E["reaction_id"].t,
+                  ipos[1].t == r,
+                  FA([x], C5.objc(st_solve)[x] == want[x]),                  # solved: +forward -reverse (+ the entry objective)
+                  xr_eq(res.items[1], val),                                  # the value returned is the callee's result
+                  FA([y], C5.objc(E.s1)[y] == o0[y]),                        # every coefficient as at entry
+                  _step_frame(E, E.s1))
+
+
+def _step_mod(E):
+    return C5._mod(E) + [l for l in _mod(_as_iter_env(E)) if not (l[0] == "ghost" and l[1] in ("objc", "solved_with"))]
+
+
+_s1 = Case("known_reaction", requires=C5._known, ensures=_step_post)
+_s1.result = C5._step_result
+_s1.may_raise = "Exception"     # the status check (OptimizationError) or the post-processing (its own exits): bounds / direction / stack as at entry
+_s1.ensures_on_raise = lambda E: _step_frame(E, E.s1)
+_s1.modifies_on_raise = _step_mod
+_s2 = Case("unknown_id", requires=lambda E: z3.Not(C5._known(E)), raises="KeyError")
+REG.add(Contract(MV, "_fva_step", "C05", [("reaction_id", TStr()), ("_model", _model_t()), ("_loopless", TConc(True))],
+                 [_s1, _s2], pre=_step_pre, modifies=_step_mod, key=STEP_KEY, props=["C05", "C14", "C13"],
+                 note="global _loopless = True; bounds valid, reactions attached (precondition of loopless_fva_iter); both coefficients "
+                      "of the requested reaction 0 at entry; on an exceptional exit the two coefficients stay written (+1 / -1): the "
+                      "caller's context and objective reset wipe them (C13 helper contract `ctx`, `objective`)"))
+STEP_HOOKS = chain_hooks(HOOKS, C5.HOOKS)
+
+
+# ================================================================ (3) lemmas: loopless inside plain
+def lemmas():
+    from pyvc.engine import Obl
+    Vec = z3.ArraySort(Ref, z3.RealSort())
+    IntA = z3.ArraySort(Ref, z3.IntSort())
+    steady = z3.Function("fi_steady_state", Vec, z3.BoolSort())
+    objf = z3.Function("fi_objective", Vec, z3.RealSort())
+    w = z3.Real("fi_w")
+    lb, ub = VReal(z3.Int("fi_lbk"), z3.Real("fi_lbv")), VReal(z3.Int("fi_ubk"), z3.Real("fi_ubv"))
+    dom = [lb.k >= -1, lb.k <= 1, ub.k >= -1, ub.k <= 1, xr_le(lb, ub), lb.k != 1, ub.k != -1]
+    lo, hi = CF.xmax(CF.ZERO, lb), CF.xmin(CF.ZERO, ub)
+    zero_inside = z3.And(xr_le(lb, CF.ZERO), xr_le(CF.ZERO, ub))
+    out = [
+        Obl("C05/lemma/loopless-fva/closed-bounds-within-old", dom + [C1.in_rng(w, lo, hi)], z3.And(C1.in_rng(w, lb, ub), w == 0), "lemma"),
+        Obl("C05/lemma/loopless-fva/closing-valid-iff-zero-admissible", dom, xr_le(lo, hi) == zero_inside, "lemma"),
+    ]
+    # bounds of the plain problem (0) and of the last solve (1): every reaction keeps its bounds or is closed (shape of _closed_effect)
+    l0k, u0k, l1k, u1k = [z3.Const("fi_" + nm, IntA) for nm in ("l0k", "u0k", "l1k", "u1k")]
+    l0v, u0v, l1v, u1v = [z3.Const("fi_" + nm, Vec) for nm in ("l0v", "u0v", "l1v", "u1v")]
+    closed = z3.Const("fi_closed", z3.ArraySort(Ref, z3.BoolSort()))
+    x, v = z3.Const("fi_x", Ref), z3.Const("fi_v", Vec)
+    b0 = lambda t: (VReal(l0k[t], l0v[t]), VReal(u0k[t], u0v[t]))  # noqa
+    b1 = lambda t: (VReal(l1k[t], l1v[t]), VReal(u1k[t], u1v[t]))  # noqa
+    shape = z3.ForAll([x], z3.And(l0k[x] >= -1, l0k[x] <= 1, u0k[x] >= -1, u0k[x] <= 1,
+                                  z3.If(closed[x],
+                                        z3.And(xr_eq(b1(x)[0], CF.xmax(CF.ZERO, b0(x)[0])), xr_eq(b1(x)[1], CF.xmin(CF.ZERO, b0(x)[1]))),
+                                        z3.And(xr_eq(b1(x)[0], b0(x)[0]), xr_eq(b1(x)[1], b0(x)[1])))), patterns=[l1k[x]])
+    feas = lambda vec, b: z3.And(steady(vec), z3.ForAll([x], C1.in_rng(vec[x], *b(x)), patterns=[vec[x]]))  # noqa
+    current, v1 = z3.Real("fi_current"), z3.Const("fi_v1", Vec)
+    for sense, better in (("max", lambda a, c: a <= c), ("min", lambda a, c: a >= c)):
+        # assumed solver contract: `current` bounds the objective over the plain feasible set; the last solve's answer v1 is feasible for ITS bounds
+        plain_opt = z3.ForAll([v], z3.Implies(feas(v, b0), better(objf(v), current)), patterns=[objf(v)])
+        out.append(Obl(f"C05/lemma/loopless-fva/restricted-optimum-not-better/{sense}", [shape, plain_opt, feas(v1, b1)],
+                       better(objf(v1), current), "lemma"))
+    return out
+
+
+"""Mutation trials (tools/mutate_and_run.sh cobra/flux_analysis/loopless.py ... contracts.c17_fva_iter --hooks HOOKS loopless_fva_iter;
+every one NOT verified, both cases unless said otherwise):
+  M1  second `with model:` -> `if True:` (closing outside any context) ............ loop#0/inv-init.4 (own context) unknown
+  M2  _add_cycle_free(model, get_solution(model).fluxes) (another Solution) ........ exit=return#2/post, #3/post (trace shape) unknown
+  M3  closing pair min(0, lb), min(0, ub) ............................................ loop#0/inv-preserve.1 unknown
+  M4  test inverted: abs(ll_sol[rid]) > zero_cutoff .................................. loop#0/inv-preserve.1, .1~3 unknown
+  M5  target fixed at (min(0,current), max(0,current)) instead of (current,current) . exit=return#3/post.23, .25 unknown
+  M6  last slim_optimize() skipped (value case) ...................................... exit=return#3/post (trace shape) unknown
+  M7  final write model.objective.direction = "max" .................................. exit=return#3/post.12 (direction as at entry) unknown
+  M8  abs(reaction.flux + current) < zero_cutoff ..................................... exit=return#2/post.1, return#3/post.20 unknown
+  M9  ll_sol read after the SECOND solve ............................................. exit=return#3/post (trace shape) unknown
+  M10 a raw `model.objective.direction = "min"` before the contexts (compensated by the final write on the normal path only)
+      ....... value: exit=raise:OptimizationError#2/post.12, #3/post.12 (direction on the exceptional exits), loop#0/inv-init.3,
+              exit=return#2/post.15 unknown; solution: undecided (C04's Model.optimize contract cannot read a literal direction)
+_fva_step@loopless (cobra/flux_analysis/variability.py ... --hooks STEP_HOOKS "_fva_step@loopless"), each NOT verified:
+  S1  the slim_optimize() before the status check dropped ............................ call:loopless_fva_iter/pre (`current` finite), post
+  S2  reset dictionary {rxn.forward_variable: 0} only ................................. exit=return#1/post.6, #2/post.6 sat
+  S3  loopless result discarded, value = _model.solver.objective.value .............. exit=return#1/post.4 sat, post.5 unknown
+  S4  {forward: 1, reverse: 1} ........................................................ exit=return#1/post.3, #2/post.3 unknown
+
+FINDING (native, /venv/bin/python against /repo; the ValueError exit proved above is reachable): a reaction on an internal cycle with
+the target whose lower bound is positive but below the cutoff (0 < lb < model.tolerance) is ~0 in the cycle-free solution and not ~0
+in the almost cycle-free one, so the closing loop writes bounds (lb, 0) and the bounds setter raises - 5-reaction model EX_A: -> A
+(0..10), EX_B: B -> (0..1000), R1: A -> B, R3: C -> A (0..1000), R2: B -> C with bounds (1e-9, 1000):
+flux_variability_analysis(model, loopless=True, fraction_of_optimum=0.0, processes=1) raises "ValueError: The lower bound must be less
+than or equal to the upper bound (1e-09 <= 0)"; with lb(R2) = 0 it returns R1 in [0, 10].  The model is as before the call on that
+exit too (bounds, direction, objective expression compared) - the frame clause (2), observed natively.
+"""
